@@ -397,6 +397,7 @@ func liftWeightedSum(c *Ctx, fd *ast.FuncDecl, p *packages.Package, strParam typ
 }
 
 func checkMod10(c *Ctx, r *Report) {
+	defer checkChecksumFunctionsWhole(c, r) // the whole-function folds that decide when the matcher below does not recognise the code
 	r.Rule("S-MOD10", "upceanReader_getStandardUPCEANChecksum weighs the digits 3,1,3,1.. from the right and returns (multiple of 10 - sum) mod 10; checkStandardUPCEANChecksum compares that value of s[:len-1] with the last digit; the EAN-5 add-on checksum weighs 3,9,3,9,3 from the right and returns sum mod 10; non-digits are rejected", 4)
 	if fd, p := c.funcDeclOf("oned", "upceanReader_getStandardUPCEANChecksum"); fd != nil {
 		key := "oned.upceanReader_getStandardUPCEANChecksum"
@@ -1092,6 +1093,7 @@ func checkCode128Checksum(c *Ctx, r *Report) {
 // ---- Code 93 ----
 
 func checkCode93Checksum(c *Ctx, r *Report) {
+	defer checkChecksumFunctionsWhole(c, r)
 	r.Rule("S-C93W", "Code 93: writer and reader accumulate index*weight from the last character backwards with the weight cycling 1..max (loop body folded as a transition for every weight), reduce mod 47, use max 20 for C and 15 for K; the reader rejects a mismatch with a checksum error before the Result is built", 6)
 	type side struct {
 		rel, name string
@@ -2123,4 +2125,167 @@ func checkExtensionHistory(c *Ctx, r *Report) {
 		}
 		reportFold(r, c, "S-EXTHIST", key, fd.Pos(), bad)
 	}
+}
+
+// S-MOD10W / S-C93CHK: the check computations as whole functions
+func checkChecksumFunctionsWhole(c *Ctx, r *Report) {
+	r.Rule("S-MOD10W", "upceanReader_getStandardUPCEANChecksum and upceanReader_checkStandardUPCEANChecksum, folded from source: for every digit string of length 0..4, for digit strings of length 7, 11, 12 and 13, and for strings with a non-digit in an odd or an even place, the first returns (10 - (3*digits in the odd places from the right + digits in the even places) mod 10) mod 10 or an error for the non-digit, and the second accepts a string exactly when its last digit is that value of the rest", 2)
+	gfd, gp := c.funcDeclOf("oned", "upceanReader_getStandardUPCEANChecksum")
+	cfd, cp := c.funcDeclOf("oned", "upceanReader_checkStandardUPCEANChecksum")
+	if gfd == nil || cfd == nil {
+		r.AnchorLost("S-MOD10W", "oned.upceanReader_getStandardUPCEANChecksum", "function not found")
+	} else {
+		ref := func(s string) (int, bool) {
+			sum := 0
+			for i := 0; i < len(s); i++ {
+				ch := s[len(s)-1-i]
+				if ch < '0' || ch > '9' {
+					return 0, false
+				}
+				if i%2 == 0 {
+					sum += 3 * int(ch-'0')
+				} else {
+					sum += int(ch - '0')
+				}
+			}
+			return (10 - sum%10) % 10, true
+		}
+		var inputs []string
+		var rec func(s string)
+		rec = func(s string) {
+			inputs = append(inputs, s)
+			if len(s) == 4 {
+				return
+			}
+			for d := 0; d < 10; d++ {
+				rec(s + fmt.Sprint(d))
+			}
+		}
+		rec("")
+		inputs = append(inputs, "0123456", "9999999", "59012341234", "036000291452", "5901234123457", "4006381333931", "0000000000000", "12a4", "1a34", "a", "12 4", "123/", ":123")
+		bad, cbad := "", ""
+		for _, s := range inputs {
+			h := &rpf{unroll: 1000}
+			h.callHook = errCtorHook
+			res, err := c.rpfCall(gfd, gp, []*Val{vstr(s)}, h)
+			want, ok := ref(s)
+			switch {
+			case err != nil:
+				bad = "?" + err.Error()
+			case len(res) != 2:
+				bad = "?unexpected result shape"
+			case !ok && res[1].K == VNil:
+				bad = fmt.Sprintf("getStandardUPCEANChecksum(%q) accepts a non-digit", s)
+			case ok && (res[1].K != VNil || !res[0].isInt() || int(res[0].I) != want):
+				bad = fmt.Sprintf("getStandardUPCEANChecksum(%q) = %s, the mod-10 check digit is %d", s, valString(res[0]), want)
+			}
+			if bad != "" {
+				break
+			}
+			if len(s) > 0 && ok {
+				for _, last := range []byte{byte('0' + want), byte('0' + (want+1)%10)} {
+					full := s + string(last)
+					h2 := &rpf{unroll: 1000}
+					h2.callHook = errCtorHook
+					res, err := c.rpfCall(cfd, cp, []*Val{vstr(full)}, h2)
+					if err != nil || len(res) != 2 || res[0].K != VBool {
+						cbad = fmt.Sprintf("?checkStandardUPCEANChecksum(%q): %v", full, err)
+					} else if res[0].B != (int(last-'0') == want) {
+						cbad = fmt.Sprintf("checkStandardUPCEANChecksum(%q) = %v; the check digit of %q is %d", full, res[0].B, s, want)
+					}
+				}
+			}
+			if cbad != "" {
+				break
+			}
+		}
+		r.Analysed("oned.upceanReader_getStandardUPCEANChecksum/whole")
+		reportFold(r, c, "S-MOD10W", "oned.upceanReader_getStandardUPCEANChecksum/whole", gfd.Pos(), bad)
+		reportFold(r, c, "S-MOD10W", "oned.upceanReader_checkStandardUPCEANChecksum/whole", cfd.Pos(), cbad)
+		r.DecidedByKeys("S-MOD10", "S-MOD10W", "the two functions folded on digit strings of every length in use and on strings with non-digits",
+			"upceanReader_getStandardUPCEANChecksum", "upceanReader_getStandardUPCEANChecksum.digits-only", "upceanReader_checkStandardUPCEANChecksum")
+	}
+	// ---- Code 93
+	r.Rule("S-C93CHK", "code93CheckChecksums, folded from source on symbol bodies of 1, 2, 5, 16, 21 and 40 data characters followed by the C and K characters the standard computes (weights cycling 1..20 and 1..15 from the right, modulo 47): it accepts them, and refuses every body in which one data character, C or K is replaced by its successor in the alphabet, also when K is computed again over the changed body (only the C check can refuse that one)", 1)
+	fd, p := c.funcDeclOf("oned", "code93CheckChecksums")
+	alpha, okA := strConst(c, "oned", "code93AlphabetString")
+	key := "oned.code93CheckChecksums/whole"
+	if fd == nil || !okA || len(alpha) < 47 {
+		r.AnchorLost("S-C93CHK", key, "function / alphabet not found")
+		return
+	}
+	r.Analysed(key)
+	check := func(body []int, maxW int) int {
+		total, w := 0, 1
+		for i := len(body) - 1; i >= 0; i-- {
+			total += w * body[i]
+			w++
+			if w > maxW {
+				w = 1
+			}
+		}
+		return total % 47
+	}
+	bad := ""
+	for _, n := range []int{1, 2, 5, 16, 21, 40} {
+		body := make([]int, n)
+		for i := range body {
+			body[i] = (7*i + 3 + n) % 43
+		}
+		cc := check(body, 20)
+		withC := append(append([]int{}, body...), cc)
+		kk := check(withC, 15)
+		full := append(withC, kk)
+		try := func(sym []int) (bool, string) {
+			lst := &Val{K: VList}
+			for _, x := range sym {
+				lst.L = append(lst.L, &Val{K: VInt, I: int64(alpha[x]), T: types.Typ[types.Byte]})
+			}
+			h := &rpf{unroll: 1000}
+			h.callHook = errCtorHook
+			res, err := c.rpfCall(fd, p, []*Val{lst}, h)
+			if err != nil || len(res) != 1 {
+				return false, fmt.Sprintf("?%v", err)
+			}
+			return res[0].K == VNil, ""
+		}
+		okv, e := try(full)
+		if e != "" {
+			bad = e
+			break
+		}
+		if !okv {
+			bad = fmt.Sprintf("a body of %d characters with the check characters C = %d and K = %d of the standard is refused", n, cc, kk)
+			break
+		}
+		for pos := 0; pos < len(full) && bad == ""; pos++ {
+			mut := append([]int{}, full...)
+			mut[pos] = (mut[pos] + 1) % 47
+			okv, e := try(mut)
+			if e != "" {
+				bad = e
+			} else if okv {
+				bad = fmt.Sprintf("a body of %d characters with character %d replaced is accepted: the C / K check does not cover it", n, pos)
+			}
+		}
+		// a body whose K fits but whose C does not (a character or C replaced, K computed again over the result):
+		// only the C check refuses it
+		for pos := 0; pos < len(withC) && bad == ""; pos++ {
+			mut := append([]int{}, withC...)
+			mut[pos] = (mut[pos] + 1) % 47
+			mut = append(mut, check(mut, 15))
+			okv, e := try(mut)
+			if e != "" {
+				bad = e
+			} else if okv {
+				bad = fmt.Sprintf("a body of %d characters with character %d replaced and K computed again over the result is accepted: the C check is not made", n, pos)
+			}
+		}
+		if bad != "" {
+			break
+		}
+	}
+	reportFold(r, c, "S-C93CHK", key, fd.Pos(), bad)
+	r.DecidedByKeys("S-C93W", "S-C93CHK", "the reader's check function folded on bodies up to 40 characters: both weights cycle and both positions are covered",
+		"code93CheckOneChecksum.transition", "code93CheckOneChecksum.compare", "oned.code93CheckChecksums")
 }
